@@ -100,7 +100,7 @@ func omnibus(run *Run, o Omni, visit Visit) {
 				}
 			}
 			tbl := lcTable(s.Src)
-			for _, off := range append(cursorOffsets(r, s.Src, o.AllPos, o.PosSample), s.Offsets...) {
+			for _, off := range append(append(cursorOffsets(r, s.Src, o.AllPos, o.PosSample), s.Offsets...), callOffsets(s.Src)...) {
 				pos, ok := tbl[off]
 				if !ok {
 					continue // inside a grapheme cluster: not a position an editor can send
